@@ -810,7 +810,8 @@ def str_method(I, node, s, meth, args, kwargs, st):
         RS = z3.ReSort(z3.StringSort())
         setre = z3.Union(*[z3.Re(z3.StringVal(chr(k))) for k in codes]) if len(codes) > 1 else z3.Re(z3.StringVal(chr(codes[0])))
         e = s.expr
-        r = I.fresh('strip', z3.StringSort())
+        # the result is a FUNCTION of the argument (same term for the code and for a spec that strips the same text)
+        r = z3.Function('str.%s[%s]' % (meth, ','.join(str(k) for k in codes)), z3.StringSort(), z3.StringSort())(e)
         pre = I.fresh('strippre', z3.StringSort())
         notset = z3.Diff(z3.AllChar(RS), setre)
         if meth == 'lstrip':
